@@ -318,6 +318,97 @@ func runC12(c *ev.Case, ctx *lib.Ctx, sc c12Script) {
 	}
 }
 
+// runC12Second: the same sm.Client dials a second peer while its first
+// connection is up and the first peer repeats its CEA during that handshake.
+func runC12Second(c *ev.Case, ctx *lib.Ctx, peer2Answers bool, dupAt time.Duration) {
+	sig := func(op string) ev.Sig { return ev.Sig{"op": op, "suite": "second-dial"} }
+	settings := &sm.Settings{OriginHost: "cli.local", OriginRealm: "realm.local", VendorID: 13, ProductName: "verif",
+		HostIPAddresses: []datatype.Address{datatype.Address(net.IP{192, 0, 2, 9})}}
+	machine := sm.New(settings)
+	var mu sync.Mutex
+	answers := map[string]int{}
+	machine.HandleFunc("CCA", func(dc diam.Conn, m *diam.Message) {
+		mu.Lock()
+		answers[dc.RemoteAddr().String()]++
+		mu.Unlock()
+	})
+	cli := &sm.Client{Dict: ctx.Parser, Handler: machine, MaxRetransmits: 0, RetransmitInterval: time.Second,
+		AuthApplicationID: []*diam.AVP{diam.NewAVP(258, 0x40, 0, datatype.Unsigned32(4))}}
+	mk := func(name string, answer bool, delay time.Duration) *memnet.Conn {
+		mc := memnet.NewConn()
+		mc.Remote = memnet.Addr{Net: "tcp", Str: name}
+		mc.OnWrite = func(w memnet.WriteRec) {
+			msgs, _ := peer.SplitMessages(w.Data)
+			if len(msgs) == 1 && peer.Header(msgs[0]).Code == 257 && answer {
+				h := peer.Header(msgs[0])
+				go func() {
+					time.Sleep(delay)
+					mc.Feed(peer.StdCEA(h.HopByHop, h.EndToEnd, 2001, 4))
+				}()
+			}
+		}
+		return mc
+	}
+	mc1 := mk("10.0.0.1:3868", true, 0)
+	conn1, err := cli.NewConn(mc1, "peer1:3868")
+	if err != nil {
+		c.Fail(sig("setup"), nil, nil, "first dial: %v", err)
+		return
+	}
+	mc2 := mk("10.0.0.2:3868", peer2Answers, 600*time.Millisecond)
+	var conn2 diam.Conn
+	var err2 error
+	done := make(chan struct{})
+	go func() {
+		conn2, err2 = cli.NewConn(mc2, "peer2:3868")
+		close(done)
+	}()
+	time.Sleep(dupAt)
+	mc1.Feed(peer.StdCEA(0x77, 0x78, 2001, 4)) // peer 1 repeats its CEA on the first connection
+	<-done
+	synctest.Wait()
+	defer func() {
+		mc1.FeedEOF()
+		mc2.FeedEOF()
+		conn1.Close()
+		if conn2 != nil {
+			conn2.Close()
+		}
+		synctest.Wait()
+	}()
+	desc := fmt.Sprintf("second dial of the same client (peer 2 answers after 600 ms: %v), peer 1 repeats its success CEA %v into that handshake", peer2Answers, dupAt)
+	if peer2Answers != (err2 == nil && conn2 != nil) {
+		c.Fail(sig("outcome"), nil, nil, "second dial returned conn=%v err=%v; %s", conn2 != nil, err2, desc)
+		return
+	}
+	if mc1.CloseCount() != 0 {
+		c.Fail(sig("closed-after-handshake"), nil, nil, "the first connection was closed; %s", desc)
+		return
+	}
+	ans := peer.Msg(0x40, 272, 4, 9, 9, peer.Str(peer.SessionID, refcodec.UTF8String, "s;1"), peer.U32(peer.ResultCode, 2001))
+	mc1.Feed(ans)
+	if conn2 != nil {
+		mc2.Feed(ans)
+	}
+	synctest.Wait()
+	mu.Lock()
+	a1, a2 := answers["10.0.0.1:3868"], answers["10.0.0.2:3868"]
+	mu.Unlock()
+	want2 := 0
+	if peer2Answers {
+		want2 = 1
+	}
+	if a1 != 1 || a2 != want2 {
+		c.Fail(sig("answer-not-dispatched"), nil, nil, "answers dispatched: %d on the first connection (expected 1), %d on the second (expected %d); %s", a1, a2, want2, desc)
+		return
+	}
+	if !peer2Answers && mc2.CloseCount() < 1 {
+		c.Fail(sig("not-closed-after-failure"), nil, nil, "the second dial failed but its transport was not closed; %s", desc)
+		return
+	}
+	c.Event("second_dial_scenarios", 1)
+}
+
 func TestC12(t *testing.T) {
 	rec := ev.Open(t, "C12")
 	defer rec.Close()
@@ -399,4 +490,17 @@ func TestC12(t *testing.T) {
 		}
 	})
 	rec.Exhaustive("scripts")
+	rec.Suite("second-dial", 2*4*rec.N(2, 20), func(c *ev.Case) {
+		answers := c.I%2 == 0
+		dupAt := []time.Duration{0, 100 * time.Millisecond, 500 * time.Millisecond, 900 * time.Millisecond}[(c.I/2)%4]
+		c.Class("second-dial/peer2-answers=%v/dup-at=%v", answers, dupAt)
+		before := len(lc.String())
+		leak := runBubbleWD(t, rec, c, 60*time.Second, func() { runC12Second(c, ctx, answers, dupAt) })
+		if leak != "" && !c.Failed() {
+			c.Fail(ev.Sig{"op": "bubble-leak", "suite": "second-dial"}, nil, nil, "goroutines left blocked after the scenario: %s", leak)
+		}
+		if logs := lc.String()[before:]; bytes.Contains([]byte(logs), []byte("panic serving")) && !c.Failed() {
+			c.Fail(ev.Sig{"op": "reader-panic", "suite": "second-dial"}, nil, nil, "a connection's reader panicked: %s", logs[:min(len(logs), 600)])
+		}
+	})
 }
